@@ -160,7 +160,8 @@ macro_rules! sealed_float {
                         dir: Ordering::Equal,
                         overflow: false,
                     };
-                    return FloatKind::Finite { neg, conv };
+                    // negative zero is not less than zero
+                    return FloatKind::Finite { neg: false, conv };
                 }
 
                 let mut src_frac_bits = prec - 1 - exp;
